@@ -30,6 +30,7 @@ import (
 	"math/big"
 	"os"
 	"reflect"
+	"runtime/pprof"
 	"strconv"
 	"sync"
 	"time"
@@ -189,6 +190,7 @@ func expectTime(cl derref.TimeClass, v derref.TimeVal, consumed int) expect {
 // ---------------------------------------------------------------------------
 
 type reader struct {
+	cls   string // name used in violation classes (default: name)
 	name  string
 	group int // 0 generic, 1 typed, 2 explicit-tag optional
 	// real runs the reader on s; p is the tag parameter (when the reader has one)
@@ -221,6 +223,9 @@ func eqVal(a, b any) bool {
 }
 
 var defBig = big.NewInt(7777)
+var sentinel = []byte{1, 2, 3}
+var absentOpt any = optOut{nil, false}
+var boxTrue, boxFalse any = true, false
 
 type anyOut struct {
 	out []byte
@@ -327,6 +332,36 @@ func intReader(kind string) reader {
 		return expectInt(c, kind, x.tlv.Total)
 	}
 	switch kind {
+	case "int8", "int16":
+		r.std = func(el []byte) (any, bool) {
+			var v *big.Int
+			rest, err := encoding_asn1.Unmarshal(el, &v)
+			if err != nil || len(rest) != 0 || !v.IsInt64() {
+				return nil, false
+			}
+			return v.Int64(), true
+		}
+	case "uint8", "uint16", "uint32", "uint64", "uint":
+		r.std = func(el []byte) (any, bool) {
+			var v *big.Int
+			rest, err := encoding_asn1.Unmarshal(el, &v)
+			if err != nil || len(rest) != 0 || !v.IsUint64() {
+				return nil, false
+			}
+			return v.Uint64(), true
+		}
+	case "bytes":
+		r.std = func(el []byte) (any, bool) {
+			var v *big.Int
+			rest, err := encoding_asn1.Unmarshal(el, &v)
+			if err != nil || len(rest) != 0 || v.Sign() < 0 {
+				return nil, false
+			}
+			if v.Sign() == 0 {
+				return []byte{0}, true
+			}
+			return v.Bytes(), true
+		}
 	case "int64", "int":
 		r.std = func(el []byte) (any, bool) {
 			var v int64
@@ -522,11 +557,14 @@ func readers() []reader {
 				if !ok {
 					return false, nil
 				}
+				if !present && out == nil {
+					return true, absentOpt
+				}
 				return true, optOut{out, present}
 			},
 			model: func(x *input, p byte) expect {
 				if len(x.b) == 0 || x.b[0] != p {
-					return expect{verdict: mustAccept, val: optOut{nil, false}, consumed: 0, reason: "absent"}
+					return expect{verdict: mustAccept, val: absentOpt, consumed: 0, reason: "absent"}
 				}
 				if x.perr != "" {
 					return rej("tag present but no DER TLV")
@@ -751,11 +789,14 @@ func readers() []reader {
 	rs = append(rs,
 		reader{name: "ReadOptionalASN1OctetString", group: 2, param: true,
 			real: func(s *cryptobyte.String, p asn1.Tag) (bool, any) {
-				v := []byte{1, 2, 3}
+				v := sentinel
 				present := false
 				ok := s.ReadOptionalASN1OctetString(&v, &present, p)
 				if !ok {
 					return false, nil
+				}
+				if !present && v == nil {
+					return true, absentOpt
 				}
 				return true, optOut{v, present}
 			},
@@ -763,7 +804,7 @@ func readers() []reader {
 				inner, e, present := explicit(x, p, 0x04, "OCTET STRING")
 				if !present {
 					if e.verdict == mustAccept {
-						e.val = optOut{nil, false}
+						e.val = absentOpt
 					}
 					return e
 				}
@@ -772,7 +813,7 @@ func readers() []reader {
 	)
 	for _, def := range []bool{false, true} {
 		def := def
-		rs = append(rs, reader{name: fmt.Sprintf("ReadOptionalASN1Boolean(default %v)", def), group: 2, param: true,
+		rs = append(rs, reader{name: fmt.Sprintf("ReadOptionalASN1Boolean(default %v)", def), cls: "ReadOptionalASN1Boolean", group: 2, param: true,
 			real: func(s *cryptobyte.String, p asn1.Tag) (bool, any) {
 				v := !def
 				if !s.ReadOptionalASN1Boolean(&v, p, def) {
@@ -818,7 +859,15 @@ type checker struct {
 	lenient map[string]int64
 }
 
+type nkey struct {
+	ri     int
+	reason string
+	n      int
+}
+
 type stats struct {
+	s       cryptobyte.String
+	nkeys   map[nkey]struct{}
 	cur     int // reader being run (for the panic report)
 	curP    byte
 	evals   int
@@ -830,13 +879,16 @@ type stats struct {
 }
 
 func (k *checker) newStats() *stats {
-	return &stats{accepts: make([]int64, len(k.rs)), rejects: make([]int64, len(k.rs)), keys: map[string]struct{}{}, lenient: map[string]int64{}}
+	return &stats{accepts: make([]int64, len(k.rs)), rejects: make([]int64, len(k.rs)), keys: map[string]struct{}{}, lenient: map[string]int64{}, nkeys: map[nkey]struct{}{}}
 }
 
 func (k *checker) merge(st *stats) {
 	k.c.Eval(st.evals)
 	for key := range st.keys {
 		k.c.Nontrivial(key)
+	}
+	for key := range st.nkeys {
+		k.c.Nontrivial(k.rs[key.ri].name + "|accept|" + key.reason + "|len" + strconv.Itoa(key.n))
 	}
 	k.mu.Lock()
 	for i := range st.accepts {
@@ -857,6 +909,13 @@ func hexN(b []byte) string {
 	return fmt.Sprintf("%s..(%d bytes)..%s", hex.EncodeToString(b[:24]), len(b), hex.EncodeToString(b[len(b)-8:]))
 }
 
+func (r *reader) class() string {
+	if r.cls != "" {
+		return r.cls
+	}
+	return r.name
+}
+
 func (k *checker) report(class string, r *reader, b []byte, p byte, extra map[string]any) {
 	d := map[string]any{"reader": r.name, "input": hexN(b)}
 	if len(b) <= 4096 {
@@ -874,9 +933,10 @@ func (k *checker) report(class string, r *reader, b []byte, p byte, extra map[st
 // one runs reader ri with tag parameter p on x.
 func (k *checker) one(ri int, x *input, p byte, st *stats) {
 	r := &k.rs[ri]
-	s := cryptobyte.String(x.b)
+	st.s = cryptobyte.String(x.b)
 	st.cur, st.curP = ri, p
-	ok, val := r.real(&s, asn1.Tag(p))
+	ok, val := r.real(&st.s, asn1.Tag(p))
+	s := st.s
 	e := r.model(x, p)
 	st.evals++
 	if ok {
@@ -887,16 +947,16 @@ func (k *checker) one(ri int, x *input, p byte, st *stats) {
 	switch e.verdict {
 	case mustReject:
 		if ok {
-			k.report(r.name+" accepts: "+e.reason, r, x.b, p, map[string]any{"value": fmt.Sprint(val)})
+			k.report(r.class()+" accepts: "+e.reason, r, x.b, p, map[string]any{"value": fmt.Sprint(val)})
 		}
 		return
 	case mustAccept:
 		if !ok {
-			k.report(r.name+" rejects a DER encoding of a representable value", r, x.b, p, map[string]any{"expected": fmt.Sprint(e.val)})
+			k.report(r.class()+" rejects a DER encoding of a representable value", r, x.b, p, map[string]any{"expected": fmt.Sprint(e.val)})
 			return
 		}
 	case mayAccept:
-		st.lenient[r.name+"|"+e.reason+"|accepted="+strconv.FormatBool(ok)]++
+		st.lenient[r.name+"|"+e.reason+"|accepted="+strconv.FormatBool(ok)]++ // rare: time strings only
 		if !ok {
 			return
 		}
@@ -906,19 +966,19 @@ func (k *checker) one(ri int, x *input, p byte, st *stats) {
 	}
 	// accepted and allowed: value, consumption, encoding/asn1
 	if e.val != nil && !eqVal(val, e.val) {
-		k.report(r.name+" returns a value different from the DER grammar's", r, x.b, p, map[string]any{"got": fmt.Sprint(val), "want": fmt.Sprint(e.val)})
+		k.report(r.class()+" returns a value different from the DER grammar's", r, x.b, p, map[string]any{"got": fmt.Sprint(val), "want": fmt.Sprint(e.val)})
 	}
 	if len(s) != len(x.b)-e.consumed || (len(s) > 0 && &s[0] != &x.b[e.consumed]) {
-		k.report(r.name+" leaves the wrong remainder", r, x.b, p, map[string]any{"left": len(s), "want_left": len(x.b) - e.consumed})
+		k.report(r.class()+" leaves the wrong remainder", r, x.b, p, map[string]any{"left": len(s), "want_left": len(x.b) - e.consumed})
 	}
-	if len(st.keys) < 4096 {
-		st.keys[r.name+"|accept|"+e.reason+"|len"+strconv.Itoa(min(len(x.tlv.Content), 12))] = struct{}{}
+	if e.consumed > 0 {
+		st.nkeys[nkey{ri, e.reason, min(len(x.tlv.Content), 12)}] = struct{}{}
 	}
 	if r.std != nil && x.perr == "" {
 		if sv, sok := r.std(x.b[:x.tlv.Total]); sok {
 			st.stdCmp++
 			if !eqVal(val, sv) {
-				k.report(r.name+" and encoding/asn1 both accept but return different values", r, x.b, p, map[string]any{"cryptobyte": fmt.Sprint(val), "encoding/asn1": fmt.Sprint(sv)})
+				k.report(r.class()+" and encoding/asn1 both accept but return different values", r, x.b, p, map[string]any{"cryptobyte": fmt.Sprint(val), "encoding/asn1": fmt.Sprint(sv)})
 			}
 		}
 	}
@@ -929,7 +989,7 @@ func (k *checker) checkInput(b []byte, groups [3]bool, st *stats) {
 	defer func() {
 		if rec := recover(); rec != nil {
 			r := &k.rs[st.cur]
-			k.report(r.name+": panic", r, b, st.curP, map[string]any{"panic": fmt.Sprint(rec)})
+			k.report(r.class()+": panic", r, b, st.curP, map[string]any{"panic": fmt.Sprint(rec)})
 		}
 	}()
 	x := &input{b: b}
@@ -1008,7 +1068,7 @@ type content struct {
 	data []byte
 }
 
-func intContents() [][]byte {
+func intContents(full bool) [][]byte {
 	var out [][]byte
 	seen := map[string]bool{}
 	add := func(b []byte) {
@@ -1018,9 +1078,15 @@ func intContents() [][]byte {
 		}
 	}
 	var vals []*big.Int
-	for _, bits := range []uint{0, 1, 6, 7, 8, 9, 14, 15, 16, 17, 23, 24, 30, 31, 32, 33, 47, 55, 56, 62, 63, 64, 65, 71, 72, 127, 128} {
+	bitsList := []uint{0, 1, 6, 7, 8, 9, 14, 15, 16, 17, 23, 24, 30, 31, 32, 33, 47, 55, 56, 62, 63, 64, 65, 71, 72, 127, 128}
+	deltas := []int64{-2, -1, 0, 1, 2}
+	if !full {
+		bitsList = []uint{0, 7, 8, 15, 16, 31, 32, 63, 64}
+		deltas = []int64{-1, 0, 1}
+	}
+	for _, bits := range bitsList {
 		p := new(big.Int).Lsh(big.NewInt(1), bits)
-		for _, d := range []int64{-2, -1, 0, 1, 2} {
+		for _, d := range deltas {
 			v := new(big.Int).Add(p, big.NewInt(d))
 			vals = append(vals, v, new(big.Int).Neg(v))
 		}
@@ -1105,9 +1171,9 @@ var coreTimes = []string{
 	"19920521240000Z", "19921321000000Z", "1992052100000Z", "199205210000000Z", "19920521000000,5Z", "-9920521000000Z", "+9920521000000Z", "1992052100000 Z",
 }
 
-func coreContents() []content {
+func coreContents(fullInts bool) []content {
 	var out []content
-	for _, b := range intContents() {
+	for _, b := range intContents(fullInts) {
 		out = append(out, content{"INTEGER", b})
 	}
 	for _, b := range boolContents() {
@@ -1202,6 +1268,26 @@ func (k *checker) gridG1(contents []content, tags []int, label string) {
 		mu.Unlock()
 	})
 	c.Set("grid_"+label, map[string]any{"contents": len(contents), "identifier_octets": len(tags), "length_forms": 10, "tails": 3, "inputs": inputs})
+}
+
+// special: length octets at the 32-bit limits (header+length arithmetic must not wrap)
+func (k *checker) special() {
+	st := k.newStats()
+	defer k.merge(st)
+	n := 0
+	for _, tag := range []byte{0x02, 0x04, 0x30, 0xa0} {
+		for _, l := range []uint32{0xffffffff, 0xfffffffe, 0xfffffffd, 0xfffffffc, 0xfffffffb, 0xfffffffa, 0xfffffff9, 0xfffffff0, 0x80000000, 0x7fffffff, 0x7ffffffa, 0x01000000, 0x00ffffff} {
+			for _, body := range []int{0, 1, 4, 5, 6, 7, 16} {
+				b := []byte{tag, 0x84, byte(l >> 24), byte(l >> 16), byte(l >> 8), byte(l)}
+				for i := 0; i < body; i++ {
+					b = append(b, byte(i+1))
+				}
+				k.checkInput(b, [3]bool{true, true, true}, st)
+				n++
+			}
+		}
+	}
+	k.c.Set("special_32bit_length_inputs", n)
 }
 
 // ---------------------------------------------------------------------------
@@ -1556,6 +1642,11 @@ func run(c *vf.Ctx) {
 		return
 	}
 
+	if f := os.Getenv("C23_PPROF"); f != "" {
+		w, _ := os.Create(f)
+		pprof.StartCPUProfile(w)
+		defer pprof.StopCPUProfile()
+	}
 	phases := map[string]float64{}
 	last := time.Now()
 	phase := func(name string) {
@@ -1563,20 +1654,32 @@ func run(c *vf.Ctx) {
 		last = time.Now()
 		c.Set("phase_seconds", phases)
 	}
-	core := coreContents()
+	core := coreContents(true)
 	var tags []int
 	for t := 0; t < 256; t++ {
 		tags = append(tags, t)
 	}
 	c.Sample(map[string]any{"grid_input_example": "02 81 01 7f (INTEGER content 7f under the non-minimal 0x81 length form) -> every reader must reject"})
-	c.Sample(map[string]any{"content_classes": map[string]int{"INTEGER": len(intContents()), "BOOLEAN": len(boolContents()), "OID": len(oidContents()), "BIT STRING": len(bitContents()), "OCTET STRING": len(octetContents()), "time": len(coreTimes)}})
+	c.Sample(map[string]any{"content_classes": map[string]int{"INTEGER": len(intContents(true)), "BOOLEAN": len(boolContents()), "OID": len(oidContents()), "BIT STRING": len(bitContents()), "OCTET STRING": len(octetContents()), "time": len(coreTimes)}})
 	k.builders()
 	phase("builders")
+	k.special()
 	k.gridG2()
 	phase("G2_time_grammar")
 	k.gridG3(core)
 	phase("G3_explicit_wrappers")
-	k.gridG1(core, tags, "tlv")
+	if c.Thorough {
+		k.gridG1(core, tags, "tlv")
+	} else {
+		// quick: the 256-octet cross with the integer contents at the Go-type boundaries only;
+		// the complete integer alphabet under the identifier octets that some reader looks for
+		k.gridG1(coreContents(false), tags, "tlv")
+		var ints []content
+		for _, b := range intContents(true) {
+			ints = append(ints, content{"INTEGER", b})
+		}
+		k.gridG1(ints, []int{0x01, 0x02, 0x03, 0x04, 0x05, 0x06, 0x0a, 0x17, 0x18, 0x1f, 0x22, 0x30, 0x42, 0x82, 0xa0, 0xa2}, "tlv_all_integers")
+	}
 	phase("G1_tlv_grid")
 	if c.Thorough || os.Getenv("C23_FULL_SWEEP") != "" {
 		k.sweep(3, [3]bool{true, true, true}, "all_readers")
